@@ -409,8 +409,8 @@ func (w *world) exercise(h *keyset.Handle, sh *shape, written []string, ctx stri
 			r.Violation(fmt.Sprintf("C14/weak-key-usable:%s:%s", weakType, weakRule),
 				fmt.Sprintf("%s: the %s factory built a %s primitive although the handle holds an ENABLED %s key breaking %q", ctx, class, side, weakType, weakRule))
 		}
-		if w.weakExpect != "" {
-			r.Violation(fmt.Sprintf("C14/weak-key-usable:%s", w.weakExpect),
+		if w.weakExpect != "" && depth == 0 {
+			r.Violation(fmt.Sprintf("C14/weak-key-built:%s", w.weakExpect),
 				fmt.Sprintf("%s: the %s factory built a %s primitive from a keyset holding the hand-built weak key %s (ENABLED)", ctx, class, side, w.weakExpect))
 		}
 	}
